@@ -9,9 +9,10 @@
    `C09_sequential_unroll_partial` are about the models themselves.  Inside the guards the model returns (`C09_total`) and its
    result is lint-clean, so `C09_unroll` is the unroll clause of the property about the API-level model with nothing left to the
    per-case oracle.  Not proved, decided per case by Run_C09.agree/holds: for sequential circuits
-   the step from the stripped circuit to the flop circuit itself (`C09_sequential_unroll_full`). *)
+   the step from the stripped circuit to the flop circuit itself (`C09_stripped_is_flop_run_full`; stages S1, S2a proved:
+   `C09_flop_run_is_run`, `C09_flop_run_unique`, `C09_remove_nodes_extend`). *)
 From stdpp Require Import strings gmap sets fin_sets.
-From CG Require Import Base.Oracle Model.Unroll Model.Lint Proofs.UnrollProofs Proofs.UnrollLink Proofs.UnrollTotal Proofs.UnrollModelTotal.
+From CG Require Import Base.Oracle Model.Unroll Model.Lint Proofs.UnrollProofs Proofs.UnrollLink Proofs.UnrollTotal Proofs.UnrollModelTotal Proofs.FlopSemantics Proofs.RemoveNodes.
 Open Scope string_scope.
 
 (* the node the map gives for io o at step t carries the value obtained by running c for t+1 steps, the initial state
@@ -181,20 +182,35 @@ Proof.
   - apply unroll_closed_lint_clean; try done. apply Hnm.
 Qed.
 Print Assumptions C09_unroll_lint_clean_partial.
-(* the remaining distance to the property text for sequential circuits: the stripped circuit `seq_stripped` versus the flop
-   circuit itself (state = Q pins, next state = D pins), the output marks and the initial-value types; decided by Run_C09.holds *)
-Definition C09_sequential_unroll_full : Prop := ∀ C n d q ign afo iv ru prefix U m,
-  lint_clean C → closed (c_g C) → acyclic (c_g C) → 1 ≤ n →
-  sequential_unroll C n d q ign afo iv ru prefix = Ok (U, m) →
-  lint_clean U ∧
-  (∀ b t, b ∈ dom (c_bbs C) → t < n → (∃ x, m !! pre b d ≫= (.!! t) = Some x ∧ (x ∈ outputs (c_g U) ↔ afo = true))) ∧
-  ∀ w, consistent (c_g U) w →
-    ∀ t, t < n → ∃ x, consistent (c_g C) x ∧
-      (∀ o io, o ∈ outputs (c_g C) → m !! o ≫= (.!! t) = Some io → w io = x o) ∧
-      (∀ b io, b ∈ dom (c_bbs C) → m !! pre b d ≫= (.!! t) = Some io → w io = x (pin b d)) ∧
-      (∀ b io, b ∈ dom (c_bbs C) → m !! pre b q ≫= (.!! t) = Some io → w io = x (pin b q)) ∧
-      (∀ b io io', b ∈ dom (c_bbs C) → S t < n → m !! pre b d ≫= (.!! t) = Some io → m !! pre b q ≫= (.!! (S t)) = Some io' → w io' = w io).
+(* --- the flop circuit itself: cycle-accurate semantics (state = Q pins, next state = D pins, Model/Unroll.v `flop_run`) --- *)
+(* S1: the semantics is well defined: `flop_run` is a run of the flop circuit over its free nodes, and runs are unique *)
+Theorem C09_flop_run_is_run : ∀ C d q st ins t, closed (c_g C) → acyclic (c_g C) →
+  is_runF (c_g C) (flop_pairs C d q) st ins t (flop_run C d q t st ins).
+Proof. exact flop_run_is_run. Qed.
+Print Assumptions C09_flop_run_is_run.
+Theorem C09_flop_run_unique : ∀ C d q st ins t x, closed (c_g C) → acyclic (c_g C) →
+  (∀ b, b ∈ dom (c_bbs C) → pin b d ∈ dom (c_g C)) →
+  is_runF (c_g C) (flop_pairs C d q) st ins t x → agrees (dom (c_g C)) x (flop_run C d q t st ins).
+Proof. exact flop_run_unique. Qed.
+Print Assumptions C09_flop_run_unique.
+(* S2a: removing nodes that drive no kept node (ignored / non-D/Q pins, unloaded inputs) does not change any kept node:
+   every consistent valuation of the pruned graph extends (by evalc) to the whole graph and is unchanged on the kept nodes *)
+Theorem C09_remove_nodes_extend : ∀ h ns x,
+  (∀ n i, h !! n = Some i → n ∉ (list_to_set ns : gset string) → n_fi i ## (list_to_set ns : gset string)) →
+  closed h → acyclic h → consistent (Api.remove_g h ns) x →
+  consistent h (evalc h x) ∧ agrees (free_nodes h) (evalc h x) x ∧
+  (∀ n, n ∈ dom h → n ∉ (list_to_set ns : gset string) → evalc h x n = x n).
+Proof. intros h ns x Hd. by apply remove_consistent_extend. Qed.
+Print Assumptions C09_remove_nodes_extend.
 
+(* NOT proved (S2b/S3, decided per case by Run_C09.holds which simulates the flop circuit itself): the stripped circuit's run is
+   the flop circuit's run read through the pin renaming, hence io_map values = cycle-accurate simulation; output marks and
+   initial-value types.  Plan and the needed guards: docs/C09-handover.md. *)
+Definition C09_stripped_is_flop_run_full : Prop := ∀ C d q ign ru CS sio st ins t n,
+  seq_stripped C d q ign ru = Ok (CS, sio) → lint_clean C → lint_clean CS → closed (c_g C) → acyclic (c_g C) →
+  let ρ := pin_rho (kept_pins (c_g C) ign) in
+  n ∈ dom (c_g C) → ρ n ∈ dom (c_g CS) →
+  flop_run C d q t (st ∘ ρ) (λ t, ins t ∘ ρ) n = run (c_g CS) sio t st ins (ρ n).
 (* --- non-vacuity: a toggle/accumulate machine  o = s xor a,  state s <- o, two steps --- *)
 Definition ex_c : circuit :=
   {[ "a" := mk_node Input false ∅ ]} ∪ {[ "s" := mk_node Input false ∅ ]} ∪ {[ "o" := mk_node Xor true {[ "a"; "s" ]} ]}.
